@@ -692,7 +692,7 @@ func init() {
 			"Prefault (zeroes the whole backing array by design) is not part of the API list of the statement and is not called",
 		},
 		Builds:      func(string) []string { return []string{"checkptr"} },
-		NumCases:    func(tier, build string) int { return vf.Tiered(tier, 4000, 3000000) },
+		NumCases:    func(tier, build string) int { return vf.Tiered(tier, 12000, 3000000) },
 		Floor:       func(tier string) int { return vf.Tiered(tier, 500, 20000) },
 		CaseTimeout: 30 * time.Second,
 		Run:         runC09,
